@@ -257,7 +257,7 @@ def _worker(payload):
 def main(tier: str, only=None) -> int:
     run = common.Run("C09", tier, "translation_validation")
     from vp.props import rulehosts as RH
-    hosts = shape_models() + [h for h in RH.all_hosts(tier) if h[3][0] in ("expand", "reshape_family", "slices", "scatter", "identity_ops", "matmul_gemm", "casts")]
+    hosts = shape_models() + [h for h in RH.all_hosts(tier) if h[3][0] in ("expand", "reshape_family", "slices", "scatter", "identity_ops", "matmul_gemm", "casts", "shape_attrs")]
     r = random.Random(common.seed())
     if tier == "quick":
         by = {}
